@@ -109,7 +109,11 @@ def handle (j : Json) : R Json := do
     let nums (l : List Nat) : Json := Json.arr (l.map (fun (n : Nat) => Json.num (n : JsonNumber))).toArray
     return Json.mkObj [("valid", Json.bool true),
       ("results", Json.arr (qs.map (fun q => nums (reg.evaluate q.1 q.2))).toArray),
-      ("spec", Json.arr (qs.map (fun q => nums (spec cs q.1 (clampV reg.maxVersion.minor q.2)))).toArray)]
+      -- the resolution rule at every version: v1.N and latest by C04_resolves, other majors by C04_later_major / C04_earlier_major
+      ("spec", Json.arr (qs.map (fun q => nums (match q.2 with
+        | .mm 0 _ => []
+        | .mm 1 _ | .latest => spec cs q.1 (clampV reg.maxVersion.minor q.2)
+        | .mm _ _ => spec cs q.1 reg.maxVersion.minor))).toArray)]
   | "admit" => admitOp j
   | _ => throw s!"unknown op {op}"
 
